@@ -1778,6 +1778,21 @@ EGLPNUM_TYPENAME_QSLIB_INTERFACE int EGLPNUM_TYPENAME_QSload_basis_array (
 		goto CLEANUP;
 	}
 
+	/* same validity condition as for QSload_basis: one basic entry per row */
+	{
+		int nbas = 0;
+		for (i = 0; i < qslp->nstruct; i++)
+			if (cstat[i] == QS_COL_BSTAT_BASIC) nbas++;
+		for (i = 0; i < qslp->nrows; i++)
+			if (rstat[i] == QS_ROW_BSTAT_BASIC) nbas++;
+		if (nbas != qslp->nrows)
+		{
+			QSlog("Received basis is not valid, in EGLPNUM_TYPENAME_QSload_basis_array");
+			rval = 1;
+			goto CLEANUP;
+		}
+	}
+
 	if (p->basis == 0)
 	{
 		ILL_SAFE_MALLOC (p->basis, 1, EGLPNUM_TYPENAME_ILLlp_basis);
